@@ -250,8 +250,13 @@ def process_fn(ctx, f, comps, opts, subs):
         out = out[:off] + ins + out[off + dl:]
     attrs = "".join(a.rstrip() + "\n" for a in subs["attr"])
     lo, hi = it.line_span()
+    try:
+        structure = [len(rsx.loops_of(text, body_lo)), len(rsx.closures_of(text, body_lo))]
+    except Exception:  # noqa
+        structure = None
     ctx.items.append({"path": where, "kind": "fn", "file": f, "lines": [lo, hi], "sha256": it.sha(), "rules": log,
-                      "out_name": opts.get("name", parts["name"]), "imported_from": ctx.contracts_only, "src_text": it.text})
+                      "out_name": opts.get("name", parts["name"]), "imported_from": ctx.contracts_only, "src_text": it.text,
+                      "structure": structure})
     return attrs + out + "\n"
 
 
